@@ -165,7 +165,7 @@ func expand(t fsmodel.Tree, req string) []string {
 	return cur
 }
 
-func judgeC18(c c18Case) (string, string) {
+func judgeC18Raw(c c18Case) (string, string) {
 	bfs := &budgetFS{fs: memfs.New(c.Tree), limit: 2000}
 	res, err := fsutil.FollowLinks(bfs, c.Requests)
 	// the same tree behind an FS that reports a missing walk target as the not-exist error it is (filepath.WalkDir,
@@ -645,4 +645,14 @@ func replayC18(raw json.RawMessage) string {
 		return ""
 	}
 	return k + ": " + m
+}
+
+// judgeC18 is judgeC18Raw with a panic of the code under test turned into a verdict (never a crash of the check).
+func judgeC18(c c18Case) (k, m string) {
+	defer func() {
+		if r := recover(); r != nil {
+			k, m = "panic", fmt.Sprintf("the code under test panicked: %v", r)
+		}
+	}()
+	return judgeC18Raw(c)
 }
